@@ -121,6 +121,9 @@ Theorem C02_arb_t_select : forall d evs Vs dts, length Vs = length evs -> length
 Proof. exact arb_t_select. Qed.
 Print Assumptions C02_arb_t_select.
 
+(* the domain test (ValueError for t > t[-1], /repo d28f031) is the hypothesis of C02_arb_t_select *)
+Theorem C02_arb_t_accepts_iff : forall ts tq, arb_t_rejects RO ts tq = false <-> tq <= last ts 0.
+Proof. exact arb_t_accepts_iff. Qed.
 Theorem C02_arb_t_in_segment : forall d evs Vs dts, length Vs = length evs -> length dts = length evs ->
   forall g tq, (g < length evs)%nat -> nondecr (times RO dts) -> t_ dts g < tq -> tq <= t_ dts (S g) ->
   feq d (toF (propagator_at_arb_t RO d evs Vs (propagators RO d evs Vs dts) (times RO dts) tq)) (U_ d evs Vs dts g tq).
@@ -204,6 +207,13 @@ Theorem C02_t_tau_slice : forall a b (dts : list R),
   t_get RO None (slice a b dts) = times RO (slice a b dts)
   /\ tau_get RO None (slice a b dts) = tau_of_t RO (slice a b dts).
 Proof. exact slice_t_tau. Qed.
+Theorem C02_t_tau_select : forall idxs (dts : list R),
+  t_get RO None (select 0 idxs dts) = times RO (select 0 idxs dts)
+  /\ tau_get RO None (select 0 idxs dts) = sumlist RO (select 0 idxs dts).
+Proof. exact select_t_tau. Qed.
+Theorem C02_slice_is_select : forall a b (dts : list R), (b <= length dts)%nat ->
+  slice a b dts = select 0 (seq a (b - a)) dts.
+Proof. exact slice_is_select. Qed.
 Theorem C02_t_slice_shift : forall a b dts, (a <= length dts)%nat -> (a <= b)%nat ->
   times RO (slice a b dts) = map (fun x => x - nth a (times RO dts) 0) (slice a (S b) (times RO dts)).
 Proof. exact slice_times. Qed.
